@@ -14,28 +14,51 @@ MANIFEST = {
             "Mathlib's group; signatures produced by sign verify under d*G and lie in range; verify is invariant under s -> n-s; recovered "
             "keys verify and contain the signer; the nonce equals an RFC 6979 specification written from the RFC text. Generic in a curve "
             "with p, n prime and n*G = infinity, facts proved for secp256k1/secp256r1 in C02, together with #E(F_p) = n, which makes the "
-            "verify and recovery theorems hypothesis-free on these two curves. Model tied to the code by differential "
-            "correspondence in both arithmetic configurations and an independent Python RFC 6979 on every run.",
-    "note": "libsecp256k1 absent (its low-S normalising sign/verify is never run). 'Nonce never shared between distinct (key, hash)' is "
+            "verify and recovery theorems hypothesis-free on these two curves. "
+            "NATIVE BACKENDS ('whichever arithmetic backend is active'): the Generator methods are modelled once over an explicit method "
+            "table (Model/NativeCurve.lean, Gen.*: self.inverse_mod / self.multiply / self.raw_mul / self.__mul__ are virtual calls), "
+            "proved equal to the pure model for the pure table (C01_methods_pure); the OpenSSL and libsecp256k1 mixins are modelled "
+            "statement by statement with the C library an explicit parameter and what it is assumed to do a hypothesis (LibCryptoOk, "
+            "LibSecpOk - satisfiable: executable instances built from the pure model). Under LibCryptoOk verify, sign_with_recid/sign "
+            "(RFC 6979 nonce: no side condition) and recovery (every r >= 0) through the OpenSSL class EQUAL those of the pure class "
+            "(C01_native_openssl_*_secp256k1/_secp256r1), so every theorem above holds verbatim for the OpenSSL configuration. Under "
+            "LibSecpOk the libsecp256k1 verify equals Generator.verify for 1 <= z < 2^256, 0 <= r,s < 2^256, and its sign returns the same "
+            "r and s or n-s, the low-S one (C01_native_libsecp_*). Models tied to the code by differential correspondence in both "
+            "arithmetic configurations (pure model vs both classes; the OpenSSL glue model vs the OpenSSL class: ops ossl_sign/verify/"
+            "recover) and an independent Python RFC 6979 on every run.",
+    "note": "libsecp256k1 is ABSENT from this sandbox: its glue (native/secp256k1.py: sign with low-S normalisation, verify, the key and "
+            "signature parsing around the calls) is modelled and its contract LibSecpOk stated BY READING ONLY - no correspondence run is "
+            "possible here; evidence.coverage.libsecp256k1 of C02 reports whether the library is loadable where the check runs. Caveats "
+            "found by reading: out of [0, 2^256) the glue's to_bytes_32 raises OverflowError where Generator.verify returns False "
+            "(C01_native_libsecp_verify_overflow); the default nonce of libsecp256k1 is RFC 6979 over the unreduced 32 hash bytes, so "
+            "agreement with deterministic_generate_k is stated for z < n only; secp256k1_ecdsa_signature_normalize is called without "
+            "argtypes. LibCryptoOk (OpenSSL) is probed on the real library on every run, OpenSSL's internals are not verified. Fixed "
+            "defect: OpenSSL inverse_mod ignored BN_mod_inverse's NULL, so recovery with r = n (secp256k1) / r = 0 (secp256r1) "
+            "returned [infinity, infinity] where the pure class raises AssertionError. "
+            "'Nonce never shared between distinct (key, hash)' is "
             "k = RFC6979(d, z) (proved against a specification written from the RFC) plus an assumption on HMAC-SHA256; unforgeability is a "
             "cryptographic assumption, not a theorem. The generic verify_iff_partial / recover_sound_partial carry the hypothesis "
             "n*Q = infinity; for secp256k1 and secp256r1 it is discharged (C01_verify_iff_secp256k1/_secp256r1, C01_verify_neg_s_*, "
             "C01_recover_sound_secp256k1/_secp256r1 hold for every curve point, no torsion or 2-torsion hypothesis): #E(F_p) = n is "
             "proved in Lean without Hasse (#E <= 2p+1 < 3n, n | #E, no point of order two by a generated kernel-checked certificate). "
             "Known finding: on toy curves the retry loop k += 1 can reach k = n and raise TypeError (C01_sign_returns_refuted).",
-    "technique": "Lean 4 proof (Mathlib group law over ZMod p, field arithmetic mod n) + differential correspondence model vs "
-                 "implementation per backend + independent RFC 6979 reference + exhaustive toy-curve enumeration (test)",
+    "technique": "Lean 4 proof (Mathlib group law over ZMod p, field arithmetic mod n; native glue over explicit library contracts) + "
+                 "differential correspondence model vs implementation per backend, glue model vs OpenSSL class + independent RFC 6979 "
+                 "reference + exhaustive toy-curve enumeration (test)",
 }
 RULE = ("ops sign/verify/recover/rfc6979/rfc6979n/rfc6979_spec/keysign/keyverify/toy_sign/toy_verify on secp256k1, secp256r1 (pure and OpenSSL), toy curves of prime "
-        "order; boundary scalars d,z in {1,2,n-1}, z in {n,n+1,2^256-1}, r,s in {0,n,n+1,2^256-1}, s -> n-s, foreign key, foreign "
+        "order; ossl_sign/ossl_verify/ossl_recover: Generator methods over the glue model of native/openssl.py against the OpenSSL class; "
+        "boundary scalars d,z in {1,2,n-1}, z in {n,n+1,2^256-1}, r,s in {0,n,n+1,2^256-1}, s -> n-s, foreign key, foreign "
         "hash, single-bit changes of d and z; distinct = distinct op line; trivial = z = 0")
 ASSUMPTIONS = [
-    "libsecp256k1 is not installed: the libsecp256k1 backend (which also low-S normalises) is never run",
+    "libsecp256k1 is not installed: the libsecp256k1 backend (which also low-S normalises) is never run; its glue model and the contract LibSecpOk "
+    "(hypothesis of the C01_native_libsecp_* theorems) are tied to native/secp256k1.py and the library's documentation by reading only",
+    "libcrypto does what LibCryptoOk says (hypothesis of the C01_native_openssl_* theorems; probed on the real library by C02's ossl_probe ops), not verified",
     "hashlib/hmac SHA-256 are modelled by Pycoin.Hash.sha256 / hmacSha256L (validated against hashlib on every run), not verified",
-    "OpenSSL arithmetic is compared differentially, not verified",
     "distinctness of RFC 6979 nonces for distinct (d, z) is a property of HMAC-SHA256 (assumption); what is checked is k = RFC6979(d, z)",
 ]
-TRUSTED = ["harness/props/curve_common.py: rfc6979_ref, an independent RFC 6979 written from the RFC text with hashlib/hmac"]
+TRUSTED = ["harness/props/curve_common.py: rfc6979_ref, an independent RFC 6979 written from the RFC text with hashlib/hmac",
+           "lean/Pycoin/Proofs/NativeContract.lean (LibCryptoOk) and lean/Pycoin/Proofs/NativeSecp.lean (LibSecpOk): the statements about the C libraries the native theorems assume"]
 
 
 def _retry_walks_into_infinity(v) -> bool:
@@ -225,6 +248,14 @@ def _oracle(op: str, out: str):
         if out != ref:
             return "Key.verify (through DER) differs from Generator.verify: %s vs %s" % (out, ref)
         return None
+    if k in ("ossl_sign", "ossl_verify", "ossl_recover"):
+        # model side: Generator.* over the GLUE MODEL of the OpenSSL class; on the implementation alone: the OpenSSL class
+        # answers what the pure class answers (for recovery: whenever r >= 0, the domain of C01_native_recover)
+        name = split_curve(a[1])[0]
+        ref = cc.impl(" ".join([k[5:], name + "/pure"] + a[2:]))
+        if ref != out:
+            return "the OpenSSL class and the pure class disagree on identical input: OpenSSL %s, pure %s" % (out[:160], ref[:160])
+        return None
     if k == "recover":
         tok = a[1]
         n = consts(tok)[5]
@@ -313,6 +344,15 @@ def neighbours(op: str, rng):
 def gen(ctx, emit):
     rng = ctx.rng
     two256 = 2 ** 256
+    # libsecp256k1's sign/verify glue is tied to the source by reading only; say in the evidence whether the library is
+    # loadable where this run happens (a note, never a violation)
+    hello = cc.worker_hello("openssl")
+    ctx.extra_cov["libsecp256k1"] = {
+        "present": "libsecp256k1=1" in hello, "worker": hello,
+        "note": ("libsecp256k1 IS loadable here: Optimizations.sign/verify of native/secp256k1.py are what pycoin runs, but their glue "
+                 "model (Secp.sign, Secp.verify) and LibSecpOk have never been compared with a real library - extend the correspondence")
+                if "libsecp256k1=1" in hello else
+                "libsecp256k1 not loadable: native/secp256k1.py is never executed; its glue model is tied to the source by reading only"}
     for name in BIG:
         p, ca, cb, gx, gy, n = consts(name)
         for cfg in ("pure", "openssl"):
@@ -353,6 +393,23 @@ def gen(ctx, emit):
                 emit("recover %s %d %d %d 1" % (tok, z0, r, s))
                 emit("recover %s %d %d %d ~" % (tok, z0, r, n - s))
                 emit("recover %s %d %d %d ~" % (tok, z0 + 1, r, s))
+            if cfg == "openssl" and so.startswith("ok "):
+                # the same through the GLUE MODEL of native/openssl.py (Lean: Gen.* over Ossl.methods over the pure-model libcrypto)
+                emit("ossl_sign %s %d %d" % (tok, d0, z0), "ossl-glue")
+                emit("ossl_sign %s 1 %d" % (tok, two256 - 1), "ossl-glue")
+                emit("ossl_sign %s 1 0" % tok, "ossl-glue")
+                for rr, ss in ((r, s), (r, n - s), (0, s), (r, n), (r ^ 1, s)):
+                    emit("ossl_verify %s %s %d %d %d" % (tok, Q, z0, rr, ss), "ossl-glue")
+                emit("ossl_verify %s %s %d %d %d" % (tok, Q2, z0, r, s), "ossl-glue")
+                emit("ossl_verify %s %d,%d 1 %d 1" % (tok, gx, gy, n - 1), "ossl-glue")          # the sum is infinity
+                emit("ossl_verify %s %s %d %d %d" % (tok, Q, n, r, s), "ossl-glue")               # u1*G is infinity
+                emit("ossl_recover %s %d %d %d ~" % (tok, z0, r, s), "ossl-glue")
+                emit("ossl_recover %s %d %d %d 1" % (tok, z0, r, n - s), "ossl-glue")
+                # r without an inverse mod n (r = n < p on secp256k1; r = 0 is an abscissa of secp256r1): AssertionError in both classes
+                for rr in (0, n, 1, p - 1, p):
+                    emit("ossl_recover %s 5 %d 3 ~" % (tok, rr), "ossl-glue")
+                    emit("recover %s 5 %d 3 ~" % (tok, rr), "ossl-glue")
+                    emit("recover %s/pure 5 %d 3 ~" % (name, rr), "ossl-glue")
             if name == "secp256k1" and so.startswith("ok "):
                 # Key.sign / Key.verify (DER wrapper) of the BTC Key class
                 for d in (1, 2, n - 1, d0):
